@@ -242,6 +242,15 @@ def r3_estimates_not_early(ctx: Context) -> None:
             want = lin.formula(ast.parse(f"{child} not in {table} or {v.id} > {table}[{child}]", mode="eval").body)
             want2 = lin.formula(ast.parse(f"{child} not in {table} or {v.id} >= {table}[{child}]", mode="eval").body)
             okg = any(lin.entails(f, want2) for f in ctl)
+            # the task whose estimate changed is queued again, so that its own children are re-estimated
+            blk = parent(st)
+            body = getattr(blk, "body", []) if st in getattr(blk, "body", []) else getattr(blk, "orelse", [])
+            requeued = any(isinstance(x, ast.Expr) and isinstance(x.value, ast.Call) and call_name(x.value) in ("append", "appendleft")
+                           and x.value.args and norm(x.value.args[0]) == child for x in body)
+            ctx.check(requeued, "C18.R3", f"TaskGraph.get_schedulable_tasks|a changed estimate of `{child}` is propagated again", loc(st),
+                      "queue.append(child) next to the store",
+                      f"the estimate of `{child}` is updated without queueing it again: the too-early estimate already pushed to its own "
+                      "children stays, and they are offered before their predecessors can have finished")
             ctx.check(okg, "C18.R3", "TaskGraph.get_schedulable_tasks|an estimate is only raised", loc(st), "guarded by `new > old` or first estimate",
                       "an existing estimate can be overwritten by a smaller one: descendants are offered too early")
     ctx.floor("C18.R3", "estimates assigned by state", n_direct, 5)
